@@ -337,9 +337,282 @@ mod packed {
     }
 }
 
+mod iup {
+    use super::*;
+    use kurbo::{Point, Vec2};
+    use write_fonts::tables::gvar::iup::{iup_delta_optimize, IupError};
+
+    pub type P = (i64, i64);
+
+    /// exact fraction num/den, den > 0
+    #[derive(Clone, Copy, Debug)]
+    pub struct Fr(pub i128, pub i128);
+
+    /// the specification's inference for one axis (OpenType gvar "inferred deltas"), written
+    /// independently of both the Rust under test and the Lean model
+    pub fn infer_axis(ca: i64, da: i64, cb: i64, db: i64, c: i64) -> Fr {
+        let (ca, da, cb, db, c) = (ca as i128, da as i128, cb as i128, db as i128, c as i128);
+        if ca == cb {
+            return Fr(if da == db { da } else { 0 }, 1);
+        }
+        let (lo, dlo, hi, dhi) = if ca < cb { (ca, da, cb, db) } else { (cb, db, ca, da) };
+        if c <= lo { Fr(dlo, 1) } else if c >= hi { Fr(dhi, 1) } else { Fr(dlo * (hi - lo) + (c - lo) * (dhi - dlo), hi - lo) }
+    }
+
+    fn is_pow2(x: i128) -> bool { x > 0 && (x & (x - 1)) == 0 }
+    fn gcd(a: i128, b: i128) -> i128 { if b == 0 { a.abs() } else { gcd(b, a % b) } }
+
+    /// does the f64 evaluation `d1 + (c - c1) * ((d2 - d1) / (c2 - c1))` involve rounding?
+    pub fn inexact_axis(ca: i64, da: i64, cb: i64, db: i64, c: i64) -> bool {
+        if ca == cb { return false; }
+        let (lo, hi) = if ca < cb { (ca, cb) } else { (cb, ca) };
+        if c <= lo || c >= hi { return false; }
+        let num = (da - db).abs() as i128;
+        let den = (hi - lo) as i128;
+        let g = gcd(num, den);
+        !is_pow2(den / g.max(1))
+    }
+
+    /// err² - tol² as f64 (exact rational evaluated at the end), for delta `d` vs inferred (ix, iy)
+    pub fn excess(d: P, ix: Fr, iy: Fr, tn: i64, td: i64) -> f64 {
+        let ex = d.0 as i128 * ix.1 - ix.0;
+        let ey = d.1 as i128 * iy.1 - iy.0;
+        let lhs = (ex * ex * iy.1 * iy.1 + ey * ey * ix.1 * ix.1) * (td as i128 * td as i128);
+        let rhs = (tn as i128 * tn as i128) * ix.1 * ix.1 * iy.1 * iy.1;
+        (lhs - rhs) as f64 / ((ix.1 * ix.1 * iy.1 * iy.1) as f64 * (td as f64 * td as f64))
+    }
+
+    /// exact inferred deltas for a whole contour given which points are retained; `None` entries
+    /// in the result are retained points.  Independent reference (spec wording: nearest retained
+    /// point before and after, cyclically; one retained point => everything moves by its delta;
+    /// none => zero).
+    pub fn infer_contour(cs: &[P], ds: &[P], keep: &[bool]) -> Vec<Option<(Fr, Fr)>> {
+        let n = cs.len();
+        let kept: Vec<usize> = (0..n).filter(|i| keep[*i]).collect();
+        (0..n).map(|k| {
+            if keep[k] { return None; }
+            if kept.is_empty() { return Some((Fr(0, 1), Fr(0, 1))); }
+            let mut a = k;
+            loop { a = (a + n - 1) % n; if keep[a] { break; } }
+            let mut b = k;
+            loop { b = (b + 1) % n; if keep[b] { break; } }
+            Some((infer_axis(cs[a].0, ds[a].0, cs[b].0, ds[b].0, cs[k].0), infer_axis(cs[a].1, ds[a].1, cs[b].1, ds[b].1, cs[k].1)))
+        }).collect()
+    }
+
+    /// any (from, to, k) triple the optimiser may evaluate whose f64 verdict could differ from
+    /// the exact one?
+    pub fn knife_edge(cs: &[P], ds: &[P], tn: i64, td: i64) -> bool {
+        let n = cs.len();
+        if n < 3 { return false; }
+        for a in 0..n {
+            for gap in 2..=n.min(9) {
+                if gap >= n { break; }
+                let b = (a + gap) % n;
+                for step in 1..gap {
+                    let k = (a + step) % n;
+                    let inx = inexact_axis(cs[a].0, ds[a].0, cs[b].0, ds[b].0, cs[k].0);
+                    let iny = inexact_axis(cs[a].1, ds[a].1, cs[b].1, ds[b].1, cs[k].1);
+                    if !(inx || iny) { continue; }
+                    let ix = infer_axis(cs[a].0, ds[a].0, cs[b].0, ds[b].0, cs[k].0);
+                    let iy = infer_axis(cs[a].1, ds[a].1, cs[b].1, ds[b].1, cs[k].1);
+                    if excess(ds[k], ix, iy, tn, td).abs() <= 1e-9 { return true; }
+                }
+            }
+        }
+        false
+    }
+
+    pub fn fmt_pts(v: &[P]) -> String {
+        join(&v.iter().map(|p| format!("{},{}", p.0, p.1)).collect::<Vec<_>>())
+    }
+
+    pub struct Case { pub cs: Vec<P>, pub ds: Vec<P>, pub ends: Vec<usize>, pub tn: i64, pub td: i64 }
+
+    impl Case {
+        pub fn req(&self) -> String {
+            format!("iup.opt {} {} | {} | {} | {}", self.tn, self.td, join(&self.ends), fmt_pts(&self.cs), fmt_pts(&self.ds))
+        }
+    }
+
+    pub fn run_real(c: &Case) -> Result<Result<Vec<(i16, i16, bool)>, String>, String> {
+        let deltas: Vec<Vec2> = c.ds.iter().map(|d| Vec2::new(d.0 as f64, d.1 as f64)).collect();
+        let coords: Vec<Point> = c.cs.iter().map(|p| Point::new(p.0 as f64, p.1 as f64)).collect();
+        let tol = c.tn as f64 / c.td as f64;
+        let ends = c.ends.clone();
+        catch(move || {
+            iup_delta_optimize(deltas, coords, tol, &ends)
+                .map(|v| v.iter().map(|g| (g.x, g.y, g.required)).collect::<Vec<_>>())
+                .map_err(|e| match e {
+                    IupError::DeltaCoordLengthMismatch { .. } => "DeltaCoordLengthMismatch".to_string(),
+                    IupError::NotEnoughCoords(_) => "NotEnoughCoords".to_string(),
+                    IupError::CoordEndsMismatch { .. } => "CoordEndsMismatch".to_string(),
+                    IupError::AchievedInvalidState(_) => "AchievedInvalidState".to_string(),
+                })
+        })
+    }
+
+    /// contour slices (start, end inclusive) incl. the four phantom points
+    pub fn contours(c: &Case) -> Vec<(usize, usize)> {
+        let mut ends = c.ends.clone();
+        ends.sort();
+        let n = c.cs.len();
+        for o in (1..=4).rev() { ends.push(n - o); }
+        let mut out = vec![];
+        let mut start = 0;
+        for e in ends { if e + 1 > start { out.push((start, e)); } start = e + 1; }
+        out
+    }
+
+    pub fn check(s: &mut Session, group: &'static str, c: &Case) {
+        let real = run_real(c);
+        let canon = match &real {
+            Ok(Ok(v)) => join(&v.iter().map(|(x, y, r)| format!("{x},{y},{}", *r as u8)).collect::<Vec<_>>()),
+            Ok(Err(e)) => format!("err:{e}"),
+            Err(_) => "trap".into(),
+        };
+        s.oracle("iup-optimize-no-panic", real.is_ok(), || c.req(), || format!("{real:?}"));
+        let Ok(Ok(out)) = real else {
+            if canon.starts_with("err:AchievedInvalidState") {
+                s.oracle("iup-optimize-no-invalid-state", false, || c.req(), || canon.clone());
+            }
+            s.case(group, c.req(), canon);
+            return;
+        };
+        // ---- soundness oracle on the real output, contour by contour, exact arithmetic
+        let mut knife = false;
+        let mut n_opt = 0usize;
+        for (a, b) in contours(c) {
+            let cs = &c.cs[a..=b];
+            let ds = &c.ds[a..=b];
+            let keep: Vec<bool> = out[a..=b].iter().map(|g| g.2).collect();
+            let values_ok = out[a..=b].iter().zip(ds).all(|(g, d)| g.0 as i64 == d.0 && g.1 as i64 == d.1);
+            s.oracle("iup-values-unchanged", values_ok, || c.req(), || canon.clone());
+            let inferred = infer_contour(cs, ds, &keep);
+            for (k, inf) in inferred.iter().enumerate() {
+                if let Some((ix, iy)) = inf {
+                    n_opt += 1;
+                    let ex = excess(ds[k], *ix, *iy, c.tn, c.td);
+                    s.oracle("iup-optional-within-tolerance", ex <= 1e-9,
+                        || c.req(), || format!("contour {a}..={b} point {k} delta {:?} inferred {:?}/{:?} excess {ex}; flags {canon}", ds[k], ix, iy));
+                }
+            }
+            knife |= knife_edge(cs, ds, c.tn, c.td);
+        }
+        s.count(&format!("iup:optional~{}", match n_opt * 4 / out.len().max(1) { 0 => "<25%", 1 => "25-50%", 2 => "50-75%", _ => ">75%" }));
+        if knife {
+            s.count("iup:knife-edge-excluded");
+        } else {
+            s.case(group, c.req(), canon);
+        }
+    }
+
+    fn with_phantoms(mut cs: Vec<P>, mut ds: Vec<P>, ends: Vec<usize>, rng: &mut Rng) -> (Vec<P>, Vec<P>, Vec<usize>) {
+        for i in 0..4 {
+            cs.push((if i == 1 { 500 } else { 0 }, 0));
+            ds.push(if rng.chance(1, 3) { (rng.range(-3, 3), 0) } else { (0, 0) });
+        }
+        (cs, ds, ends)
+    }
+
+    const TOLS: [(i64, i64); 6] = [(0, 1), (1, 2), (1, 2), (1, 1), (3, 2), (2, 1)];
+
+    /// random contour whose deltas are mostly a piecewise-linear function of the coordinates
+    fn gen_contour(rng: &mut Rng, n: usize, cs: &mut Vec<P>, ds: &mut Vec<P>) {
+        let style = rng.below(5);
+        let (ax, bx, ay, by) = (rng.range(-2, 2), rng.range(-3, 3), rng.range(-2, 2), rng.range(-3, 3));
+        let div = *rng.pick(&[1i64, 2, 4, 3, 8]);
+        let mut x = rng.range(-20, 20);
+        let mut y = rng.range(-20, 20);
+        let noise_every = 2 + rng.below(9) as usize;
+        for i in 0..n {
+            match style {
+                0 => { x += rng.range(-3, 3); y += rng.range(-3, 3); }
+                1 => { if rng.chance(1, 2) { x += rng.range(0, 8); } else { y += rng.range(-8, 8); } }
+                2 => { x = rng.range(0, 4) * 8; y = rng.range(0, 4) * 8; }
+                3 => { x += *rng.pick(&[0, 0, 1, 2, 4, 8]); y += *rng.pick(&[0, 0, -1, -2, 4]); }
+                _ => { let t = i as i64; x = (t * 7) % 40; y = (t * t) % 37; }
+            }
+            let mut dx = (ax * x) / div + bx;
+            let mut dy = (ay * y) / div + by;
+            if style == 2 { dx = rng.range(-1, 1); dy = rng.range(-1, 1); }
+            if i % noise_every == 0 && rng.chance(2, 3) { dx += rng.range(-2, 2); dy += rng.range(-2, 2); }
+            cs.push((x, y));
+            ds.push((dx, dy));
+        }
+    }
+
+    pub fn run(cfg: &Config, s: &mut Session, rng: &mut Rng) {
+        // ---- fixed cases: the module's own scenarios + error paths
+        let fixed: Vec<Case> = vec![
+            Case { cs: vec![(0, 0); 4], ds: vec![(0, 0); 4], ends: vec![], tn: 0, td: 1 },
+            Case { cs: vec![(0, 0); 3], ds: vec![(0, 0); 3], ends: vec![], tn: 0, td: 1 },
+            Case { cs: vec![(0, 0); 5], ds: vec![(0, 0); 4], ends: vec![0], tn: 0, td: 1 },
+            Case { cs: vec![(0, 0); 6], ds: vec![(0, 0); 6], ends: vec![0], tn: 0, td: 1 },
+            Case { cs: vec![(0, 0), (2, 0), (2, 2), (0, 2), (0, 0), (0, 0), (0, 0), (0, 0)], ds: vec![(1, 1), (-1, 1), (-1, -1), (1, -1), (0, 0), (0, 0), (0, 0), (0, 0)], ends: vec![3], tn: 0, td: 1 },
+            Case { cs: vec![(245, 630), (260, 700), (305, 680), (0, 0), (0, 0), (0, 0), (0, 0)], ds: vec![(28, -62), (10, -57), (-42, -57), (0, 0), (0, 0), (5, 0), (0, 0)], ends: vec![2], tn: 1, td: 2 },
+            Case { cs: vec![(1, 1), (5, 1), (9, 1), (0, 0), (0, 0), (0, 0), (0, 0)], ds: vec![(3, 3), (3, 3), (3, 3), (0, 0), (0, 0), (0, 0), (0, 0)], ends: vec![2], tn: 0, td: 1 },
+            Case { cs: vec![(1, 1), (5, 1), (9, 1), (2, 2), (3, 3), (0, 0), (0, 0), (0, 0), (0, 0)], ds: vec![(3, 3), (3, 3), (3, 3), (0, 0), (0, 0), (0, 0), (0, 0), (0, 0), (0, 0)], ends: vec![4, 2], tn: 0, td: 1 },
+        ];
+        for c in &fixed { check(s, "iup_delta_optimize(fixed)", c); }
+
+        // ---- exhaustive small contours: points on a 3x3 grid, three delta values
+        let grid: Vec<P> = (0..9).map(|i| ((i % 3) as i64, (i / 3) as i64)).collect();
+        let dvals: [P; 3] = [(0, 0), (1, 0), (1, 2)];
+        let states = 27usize; // 9 coords x 3 deltas
+        let exhaustive_n: &[usize] = if cfg.thorough() { &[1, 2, 3, 4] } else { &[1, 2, 3] };
+        for &n in exhaustive_n {
+            let total = states.pow(n as u32);
+            for code in 0..total {
+                let mut cs = vec![];
+                let mut ds = vec![];
+                let mut k = code;
+                for _ in 0..n { let st = k % states; k /= states; cs.push(grid[st % 9]); ds.push(dvals[st / 9]); }
+                let (tn, td) = TOLS[code % 3 * 2];
+                let (cs, ds, ends) = with_phantoms(cs, ds, vec![n - 1], rng);
+                check(s, "iup_delta_optimize(exhaustive)", &Case { cs, ds, ends, tn, td });
+            }
+        }
+        // sampled 4/5/6-point grid contours with richer deltas
+        let n_small = if cfg.thorough() { 400_000 } else { 25_000 };
+        for i in 0..n_small {
+            let n = 4 + (i % 3);
+            let wide = rng.chance(1, 2);
+            let mut cs = vec![];
+            let mut ds = vec![];
+            for _ in 0..n {
+                cs.push(if wide { (rng.range(0, 4) * 3, rng.range(0, 4) * 2) } else { *rng.pick(&grid) });
+                ds.push(if wide { (rng.range(-2, 2), rng.range(-2, 2)) } else { *rng.pick(&dvals) });
+            }
+            let (tn, td) = *rng.pick(&TOLS);
+            let (cs, ds, ends) = with_phantoms(cs, ds, vec![n - 1], rng);
+            check(s, "iup_delta_optimize(small)", &Case { cs, ds, ends, tn, td });
+        }
+        // ---- random larger glyphs, several contours
+        let n_big = if cfg.thorough() { 6000 } else { 500 };
+        for i in 0..n_big {
+            let ncont = 1 + rng.below(3) as usize;
+            let mut cs = vec![];
+            let mut ds = vec![];
+            let mut ends = vec![];
+            for _ in 0..ncont {
+                let n = match i % 5 { 0 => 1 + rng.below(3) as usize, 1 => 5 + rng.below(8) as usize, 4 => 100 + rng.below(100) as usize, _ => 8 + rng.below(40) as usize };
+                gen_contour(rng, n, &mut cs, &mut ds);
+                ends.push(cs.len() - 1);
+            }
+            if rng.chance(1, 4) { ends.reverse(); }
+            let (tn, td) = *rng.pick(&TOLS);
+            let (cs, ds, ends) = with_phantoms(cs, ds, ends, rng);
+            s.count(&format!("iup:big-points~{}", match cs.len() { 0..=15 => "<=15", 16..=63 => "16-63", 64..=127 => "64-127", _ => "128+" }));
+            check(s, "iup_delta_optimize(random)", &Case { cs, ds, ends, tn, td });
+        }
+    }
+}
+
 fn run(cfg: &Config, s: &mut Session) {
     let mut rng = Rng::new(cfg.seed);
     packed::run(cfg, s, &mut rng);
+    iup::run(cfg, s, &mut rng);
 }
 
 fn main() {
